@@ -1399,9 +1399,7 @@ class OptionStore:
                 raise MesonBugException(f'Tried to set an option for subproject {key.subproject} from {subproject}!')
 
             oldval = self.get_value_object(key)
-            if type(oldval) is not type(value):
-                self.set_option(key, value.value)
-            elif choices_are_different(oldval, value):
+            if type(oldval) is not type(value) or choices_are_different(oldval, value):
                 # If the choices have changed, use the new value, but attempt
                 # to keep the old options. If they are not valid keep the new
                 # defaults but warn.
